@@ -47,11 +47,11 @@ type Config struct {
 	Rows     int    `json:"rows,omitempty"` // matrix
 	Cols     int    `json:"cols,omitempty"`
 	Slots    int    `json:"iterator_slots"`
-	Values2  bool   `json:"values01,omitempty"` // matrix element values restricted to {0,1}
-	Thorough bool   `json:"thorough_menus"`     // operand menus of the thorough tier
-	Post     int    `json:"post_append_depth"`  // <0: unbounded (fixpoint); otherwise ops explored after the first Append
-	Large    bool   `json:"large,omitempty"`            // vector: ONE start dimension N, reduced alphabet of large.go
-	Z        int    `json:"max_stored_zeros,omitempty"` // large: bound on the stored zeros
+	Values2  bool   `json:"values01,omitempty"`              // matrix element values restricted to {0,1}
+	Thorough bool   `json:"thorough_menus"`                  // operand menus of the thorough tier
+	Post     int    `json:"post_append_depth"`               // <0: unbounded (fixpoint); otherwise ops explored after the first Append
+	Large    bool   `json:"large,omitempty"`                 // vector: ONE start dimension N, reduced alphabet of large.go
+	Z        int    `json:"max_stored_zeros,omitempty"`      // large: bound on the stored zeros
 	Joint    bool   `json:"joint,omitempty"`                 // one live joint iterator, reduced alphabet of joint.go (vector: ONE dimension N)
 	JForms   []int  `json:"joint_forms,omitempty"`           // 0 JointIterator, 1 ConstJointIterator, 2 JOINT_ITERATOR_
 	JMut     bool   `json:"joint_operand_mutable,omitempty"` // the sparse operand is mutated while the iterator is live
@@ -230,7 +230,7 @@ func expand(cfg Config, it item) (out []succ) {
 var pool = make(chan struct{}, 16)
 
 func explore(c *vf.Ctx, cfg Config) {
-	seen := map[string]int{} // key -> smallest post value it was queued with (-1 = unbounded)
+	seen := map[string]int{}     // key -> smallest post value it was queued with (-1 = unbounded)
 	repSeen := map[string]bool{} // content signatures that have their representative state
 	var frontier []item
 	seenAge := map[string]int{}
@@ -408,15 +408,13 @@ func configs(thorough bool) []Config {
 				cfgs = append(cfgs, Config{Kind: "matrix", Elem: e.name, Rows: 1, Cols: 2, Values2: true, Joint: true, JForms: []int{jfInterface}, JMut: true, Thorough: true, Post: -1, cost: 1000})
 			}
 			if ei == 0 {
-				cfgs = append(cfgs, Config{Kind: "vector", Elem: e.name, N: 4, Joint: true, JForms: []int{jfInterface, jfConcrete}, JMut: true, Thorough: true, Post: -1, cost: 200000})
-				cfgs = append(cfgs, Config{Kind: "matrix", Elem: e.name, Rows: 2, Cols: 2, Values2: true, Joint: true, JForms: []int{jfInterface}, JMut: true, Thorough: true, Post: -1, cost: 100000})
+				cfgs = append(cfgs, Config{Kind: "vector", Elem: e.name, N: 4, Joint: true, JForms: []int{jfInterface, jfConcrete}, Thorough: true, Post: -1, cost: 30000})
 			}
 		} else if ei < 2 { // Float64 and Real64: one type per template
 			cfgs = append(cfgs, Config{Kind: "vector", Elem: e.name, N: 2, Joint: true, JForms: []int{jfInterface, jfConcrete}, JMut: true, Post: -1, cost: 1000})
-			cfgs = append(cfgs, Config{Kind: "vector", Elem: e.name, N: 3, Joint: true, JForms: []int{jfInterface, jfConcrete}, Post: -1, cost: 5000})
 			cfgs = append(cfgs, Config{Kind: "matrix", Elem: e.name, Rows: 1, Cols: 2, Values2: true, Joint: true, JForms: []int{jfInterface}, JMut: true, Post: -1, cost: 1000})
 			if ei == 0 {
-				cfgs = append(cfgs, Config{Kind: "matrix", Elem: e.name, Rows: 2, Cols: 2, Values2: true, Joint: true, JForms: []int{jfInterface}, Post: -1, cost: 5000})
+				cfgs = append(cfgs, Config{Kind: "vector", Elem: e.name, N: 3, Joint: true, JForms: []int{jfInterface, jfConcrete}, Post: -1, cost: 5000})
 			}
 		}
 		// matrices: (rows, cols, values restricted to {0,1}, iterator slots)
@@ -452,6 +450,7 @@ func main() {
 			"a state is distinct by its canonical form = dense model + private state read through the overlay (key set of the values map with stored-zero / nil-placeholder / alias flags, index tree keys + shape and balance factors) + fields of the live iterators; " +
 			"SLICES AS RECEIVERS and the container AS OPERAND (views.go), from one representative state -- the first the BFS reaches -- of every distinct content (vectors and matrices of at most 4 cells: model values + storage class absent/stored zero/non-zero of every position + key set of the index; larger matrices: non-zero pattern of the model [quick] / storage-class pattern [thorough]; dimensions/orientation always): every window Slice(i,j) / Slice(r0,r1,c0,c1) incl. those anchored at the origin and the full window x every whole-container writer with the slice as receiver (vectors: Reset, Set, VmulS(s,s,0|1), Map, MapSet, VaddV(s,w,0), VmulV(s,s,mask); matrices: Reset, SetIdentity, Set, MdotM, Outer, Map, MapSet, MmulS, MsubM, MmulM; dense and sparse operands from the menus), then the slice must read as the reference says, the views of other windows TAKEN BEFORE the writer (full window + the complements of the written window; thorough, containers of at most 4 cells: all windows) must read as the model says, then the ordinary oracles judge the PARENT and finally every view is iterated and read again; the vector as operand of VaddV/VmulV/Set/Equals into fresh sparse and dense receivers (result = model, result iteration = non-zero positions); " +
 			"LARGE CONTAINERS (large.go): one sparse vector of dimension 8 (Float64) / 7 (Real64) [thorough: 8 with <=2 stored zeros and 7 with a live iterator for three element types, 10 for Float64], values {0,1}, BFS to fixpoint over (key subset, index tree shape with balance factors, stored-zero set) -- every tree shape insertions and deletions can produce, not every insertion order -- with the alphabet At.SetFloat64(1|0) at every position (a new stored zero only while at most Z are stored), the purging operations Iterator/IteratorFrom(i)/JointIterator walks and the operand arithmetic, Swap(i,j) with at least one stored position (entry moves = index delete + insert), Reset and VmulS(x,x,0) (bulk zeroing; from a state with more than Z stored zeros only the purging operations are enabled, so one iteration deletes up to n index entries), Clone, live iterators where slots>0; " +
+			"LIVE JOINT ITERATORS (joint.go): separate explorations on one container of fixed dimension (quick: vectors n=2 and matrices 1x2 with a mutable sparse operand for Float64 and Real64 = one type per template, vectors n=3 with immutable operands for Float64; thorough: n=3 / 1x3 with mutable operand and 2x2 for three element types, n=2 / 1x2 for the other six, n=4 for Float64), values {0,1}, alphabet At.SetFloat64(0|1) at every position, a full foreign walk (purges stored zeros), Reset, opening a joint iterator in every reachable form (JointIterator, ConstJointIterator [thorough], the concrete JOINT_ITERATOR_ of the vector types through reflection) with every operand of a menu (dense and sparse x zero, ones, 1010.., 0101..), advancing it, dropping it, and while it is live and its operand sparse: element writes to the OPERAND and a full walk of the operand (purges the operand's stored zeros under the iterator); after every transition the live joint iterator is continued to its end twice -- on the instance on which the check's fresh full iteration already purged the stored zeros and on a second replay instance without that purge -- and must terminate within dim+3 steps (otherwise: violation, never a hang), move strictly ascending, visit at least every position beyond its own where container or operand is non-zero and report the true values; " +
 			"every transition is executed on the implementation by replaying the shortest history on a fresh instance and then checked through the public API only: every typed read of every position, Dim, a fresh full iteration (exactly the non-zero positions, ascending, once, true values), continuation of the live iterators; states that fail are not expanded",
 		Assume: []string{
 			"element values {-1,0,1,2} (vectors), {0,1,2} or {0,1} (matrices); derivatives of Real types are not used",
@@ -461,6 +460,7 @@ func main() {
 			"overlay accessors are read-only and used for state keys / early-warning annotations only; private incoherence alone is never a verdict",
 			"a sparse VECTOR slice is not a view: it shares the stored scalars of its parent only (known open finding Slice+write|vector|...|parent-cell=absent), and a stored zero is dropped from the slice by the slice's own purging iterators before an iterating writer reaches it; slice writers that must produce a non-zero value at a position where the parent holds no non-zero entry are manifestations of that finding and are not enumerated (counted in slice_writers_not_enumerated); sparse MATRIX slices are views and get every writer",
 			"slice writers and operand arithmetic depend on the cell contents, not on index shape or iterator fields: they are run from one representative state per content signature (counted in content_representatives), all other operations from every state",
+			"live joint iterators are held to the demand made on the plain live iterators (after element writes, Reset and foreign walks they continue over the non-zero positions beyond their own); they may visit more positions (a dense operand reports every position); the violation key names the container kind, the template (plain = Int*/Float*, real = Real*), the iterator form and what the LAST operation did ahead of the iterator (receiver/operand entry removed, or created-or-written) -- every state passed the complete continuation oracle before it was expanded, so the last operation is the one that broke the iterator",
 			"large containers: a state whose private state is incoherent (map and index disagree: the early warning) is expanded for at most 3 further operations (never reached on a library that keeps them coherent; counted when it happens); Permute/Sort/ReverseOrder/Append/slices/masks are left to the small explorations there",
 		},
 		// vf measures the soft limit in CPU time of the worker process; this check runs as ONE
